@@ -177,18 +177,33 @@ def r_view_symmetry(ctx):
         # the membership tests only de-duplicate; the assignment predicate is what remains
         pred_t = [g for g in items[0].guards if "assigned_resources" not in show(g)]
         # resource view
-        apps = [ev for ev in run.events_of("mcall") if ev.data["name"] == "append" and "assignments" in show(ev.data["recv"])]
+        # what goes into ResourceSolution.assignments: append calls on a not fully resolved receiver, or items of the list of
+        # a ResourceSolution object built here - (loops, guards, appended value) either way
+        class _App:
+            def __init__(self, loops, guards, value):
+                self.loops, self.guards, self.value = tuple(loops), tuple(guards), value
+        apps = [_App(ev.loops, ev.guards, ev.data["args"][0]) for ev in run.events_of("mcall")
+                if ev.data["name"] == "append" and "assignments" in show(ev.data["recv"]) and ev.data["args"]]
+        for nev in run.events_of("new"):
+            if nev.data["cls"] == "ResourceSolution":
+                lst_r = run.heap.get((nev.data["obj"], "assignments"))
+                if isinstance(lst_r, PyList):
+                    apps += [_App(i.loops, i.guards, i.value if isinstance(i.value, tuple) else None) for i in lst_r.items]
         if len(apps) != 1 or len(apps[0].loops) != 2 or norm(apps[0].loops[0][3]) != norm(("mcall", S("self.problem.workers"), "values", (), ())):
             ctx.violation("R-VIEW-SYMMETRY", where, "resource view: one candidate per busy interval of every worker",
                           f"on [{cfgs}] {len(apps)} append(s) to assignments", LOC)
             continue
         w = ("elem", apps[0].loops[0])
-        tk = ("elem", apps[0].loops[1])
-        ok_iter = "_busy_intervals" in show(apps[0].loops[1][3]) and apps[0].loops[1][3][1 if apps[0].loops[1][3][0] == "mcall" else 0] is not None
-        busy_r = ("idx", A(w, "_busy_intervals"), tk)
+        inner_it = norm(apps[0].loops[1][3])
+        e1 = ("elem", apps[0].loops[1])
+        if inner_it == norm(("mcall", A(w, "_busy_intervals"), "items", (), ())):
+            tk, busy_r = ("idx", e1, K(0)), ("idx", e1, K(1))           # for task, (start, end) in busy.items()
+        else:
+            tk, busy_r = e1, ("idx", A(w, "_busy_intervals"), e1)       # for task in busy / busy.keys()
+        ok_iter = "_busy_intervals" in show(inner_it)
         lo_r, hi_r = mv(idx(busy_r, 0)), mv(idx(busy_r, 1))
-        tup = apps[0].data["args"][0]
-        ok_tuple = tup == ("tuple", (A(tk, "name"), lo_r, hi_r))
+        tup = apps[0].value
+        ok_tuple = tup is not None and norm(tup) == norm(("tuple", (A(tk, "name"), lo_r, hi_r)))
         pred_r = [g for g in apps[0].guards if "assignments" not in show(g)]
         # rename both predicates onto common points lo / hi and compare under lo <= hi
         LO, HI = ("sym", "busy_lo"), ("sym", "busy_hi")
